@@ -1,0 +1,19 @@
+//go:build verif
+
+// Contracts for the deductive verifier in /verif (govc). This file contains no code: with the
+// build tag off it is not part of the package, with it on it adds nothing to the build.
+package utils
+
+//@ import common "github.com/ethereum/go-ethereum/common"
+
+// The address that signed `msg` with signature `sig`, as go-ethereum derives it: the last 20 bytes of the Keccak-256
+// digest of the recovered 65-byte public key without its first (format) byte; the digest signed is Keccak-256 of the
+// message bytes. keccak256 / ecrecover are uninterpreted (prelude): this fixes WHICH primitive is applied to WHICH bytes.
+//@ ghost func sigRecovers(sig bytes, msg string) bool = ecrecoverOk(keccak256(strBytes(msg)), sig)
+//@ ghost func sigSigner(sig bytes, msg string) common.Address = bytesAddr(bsub(keccak256(bsub(ecrecover(keccak256(strBytes(msg)), sig), 1, 65)), 12, 32))
+
+//@ func VerifySignature(address common.Address, signature []byte, message string) (ok bool, err error)
+//@   modifies nothing
+//@   ensures[C16.verify_error] (err == nil) == sigRecovers(bytes(signature), message)
+//@   ensures[C16.verify_structure] ok == (err == nil && sigSigner(bytes(signature), message) == address)
+//@   panics[C16.verify_panics] iff len(signature) == 0 || message == ""
